@@ -478,6 +478,68 @@ func (m *Machine) model(fn *ssa.Function, args []Value, res ssa.Value) *modelRes
 		}
 		m.W.Arenas = append(m.W.Arenas, ar)
 		return &modelRes{}
+	case "(*sync.Map).Load", "(*sync.Map).Store", "(*sync.Map).LoadOrStore", "(*sync.Map).Delete", "(*sync.Map).LoadAndDelete":
+		// a map from concrete keys to values, kept per sync.Map cell for the run of
+		// the harness (sequential code only)
+		if m.procMode {
+			unsupported("sync.Map inside a goroutine under BMC")
+		}
+		pp := args[0].(*PtrV)
+		if pp.Obj == nil {
+			m.goPanic("nil pointer dereference")
+		}
+		ck := cellKey(pp.Obj, pp.Path)
+		if m.syncMaps == nil {
+			m.syncMaps = map[string]*MapObj{}
+		}
+		mo := m.syncMaps[ck]
+		if mo == nil {
+			mo = &MapObj{K: map[string]Value{}, V: map[string]Value{}}
+			m.syncMaps[ck] = mo
+		}
+		key := m.mapKey(args[1])
+		old, found := mo.V[key]
+		if !found {
+			old = &IfaceV{}
+		}
+		put := func(v Value) {
+			if !found {
+				mo.Keys = append(mo.Keys, key)
+				mo.K[key] = args[1]
+			}
+			mo.V[key] = v
+		}
+		del := func() {
+			if found {
+				delete(mo.V, key)
+				delete(mo.K, key)
+				for i, k := range mo.Keys {
+					if k == key {
+						mo.Keys = append(mo.Keys[:i:i], mo.Keys[i+1:]...)
+						break
+					}
+				}
+			}
+		}
+		switch o.Name() {
+		case "Load":
+			return ret(TupleV{old, f.BoolC(found)})
+		case "Store":
+			put(args[2])
+			return ret(nil)
+		case "LoadOrStore":
+			if found {
+				return ret(TupleV{old, f.True()})
+			}
+			put(args[2])
+			return ret(TupleV{args[2], f.False()})
+		case "Delete":
+			del()
+			return ret(nil)
+		default:
+			del()
+			return ret(TupleV{old, f.BoolC(found)})
+		}
 	case "(*sync.Pool).Put":
 		// with pool reuse modelled (job parameter pool=1) the slot is marked as pooled
 		if m.procMode && m.W.Params["pool"] == 1 {
